@@ -245,4 +245,110 @@ theorem getKey_rvOf (n : String) (R : List StepRec) : getKey n (rvOf R) = (lastR
   have := getKey_rvOf_rev n R.reverse
   rwa [List.reverse_reverse] at this
 
+/-! ### why a step succeeds or fails -/
+
+/-- the preprocessor stage of a step (a step without preprocessor yields no variables) -/
+def preStage (source : Val) (st : Step ReqDef) (rv : List (String × Val)) (it : Iter) :
+    Outcome (List (String × Val) × Iter) :=
+  match st.req.pre with
+  | none => .ok ([], it)
+  | some m => runPre (tree source (setKey st.req.name (.map []) rv)) st.req.iter m [] it
+
+/-- all four stages of a step succeed: preprocessor, templating, transport, extractors / assertions -/
+def StepSucceeds (w : World Req Resp) (source : Val) (st : Step ReqDef) (rv : List (String × Val)) (g : GState Req) : Prop :=
+  ∃ pv it' req resp postv,
+    preStage source st rv g.iter = .ok (pv, it') ∧
+    w.render st.req (tree source (setKey st.req.name (preOnly pv) rv)) = some req ∧
+    w.target (g.hist ++ [req]) = some resp ∧
+    runPosts w resp st.req.posts [] = some postv
+
+theorem shootStep_outcome (w : World Req Resp) (source : Val) (scName : String) (st : Step ReqDef)
+    (rv : List (String × Val)) (g : GState Req) (b : Bool) (rv' : List (String × Val)) (g' : GState Req)
+    (h : shootStep w source scName st rv g = some (b, rv', g')) :
+    (b = true ↔ StepSucceeds w source st rv g) := by
+  unfold shootStep at h
+  simp only at h
+  split at h
+  · cases h
+  · -- preprocessor error
+    rename_i e hp
+    cases h
+    have hp' : preStage source st rv g.iter = .err e := by
+      unfold preStage
+      cases hq : st.req.pre with
+      | none => rw [hq] at hp; exact hp
+      | some m => rw [hq] at hp; exact hp
+    refine ⟨by simp, ?_⟩
+    rintro ⟨pv, it', _, _, _, h1, _⟩
+    rw [hp'] at h1; cases h1
+  · rename_i pv it' hp
+    have hp' : preStage source st rv g.iter = .ok (pv, it') := by
+      unfold preStage
+      cases hq : st.req.pre with
+      | none => rw [hq] at hp; exact hp
+      | some m => rw [hq] at hp; exact hp
+    have hkey : setKey st.req.name (Val.map [("preprocessor", Val.map pv)]) (setKey st.req.name (Val.map []) rv) =
+        setKey st.req.name (preOnly pv) rv := by simp [preOnly, setKey_setKey]
+    rw [hkey] at h
+    have inj : ∀ pv2 it2, preStage source st rv g.iter = .ok (pv2, it2) → pv2 = pv ∧ it2 = it' := by
+      intro pv2 it2 h1
+      rw [hp'] at h1
+      cases h1; exact ⟨rfl, rfl⟩
+    split at h
+    · -- template error
+      rename_i hr
+      cases h
+      refine ⟨by simp, ?_⟩
+      rintro ⟨pv2, it2, req, _, _, h1, h2, _⟩
+      obtain ⟨e1, _⟩ := inj pv2 it2 h1
+      subst e1
+      rw [hr] at h2; cases h2
+    · rename_i req hr
+      split at h
+      · -- transport error
+        rename_i ht
+        cases h
+        refine ⟨by simp, ?_⟩
+        rintro ⟨pv2, it2, req2, resp, _, h1, h2, h3, _⟩
+        obtain ⟨e1, _⟩ := inj pv2 it2 h1
+        subst e1
+        rw [hr] at h2; cases h2
+        rw [ht] at h3; cases h3
+      · rename_i resp ht
+        split at h
+        · -- extractor / assertion failure
+          rename_i hpo
+          cases h
+          refine ⟨by simp, ?_⟩
+          rintro ⟨pv2, it2, req2, resp2, postv, h1, h2, h3, h4⟩
+          obtain ⟨e1, _⟩ := inj pv2 it2 h1
+          subst e1
+          rw [hr] at h2; cases h2
+          rw [ht] at h3; cases h3
+          rw [hpo] at h4; cases h4
+        · rename_i postv hpo
+          cases h
+          refine ⟨fun _ => ⟨pv, it', req, resp, postv, hp', hr, ht, hpo⟩, fun _ => rfl⟩
+
+/-- the loop stops at a step exactly when that step does not succeed; otherwise it continues with the next one -/
+theorem shootLoop_cons (w : World Req Resp) (source : Val) (scName : String) (st : Step ReqDef)
+    (rest : List (Step ReqDef)) (rv : List (String × Val)) (g : GState Req) (b : Bool) (g' : GState Req)
+    (h : shootLoop w source scName (st :: rest) rv g = some (b, g')) :
+    (StepSucceeds w source st rv g →
+      ∃ rv1 g1, shootStep w source scName st rv g = some (true, rv1, g1) ∧
+        shootLoop w source scName rest rv1 g1 = some (b, g')) ∧
+    (¬ StepSucceeds w source st rv g →
+      b = false ∧ ∃ rv1, shootStep w source scName st rv g = some (false, rv1, g')) := by
+  simp only [shootLoop] at h
+  split at h
+  · cases h
+  · rename_i rv1 g1 hstep
+    cases h
+    have := shootStep_outcome w source scName st rv g false rv1 g' hstep
+    refine ⟨fun hs => ?_, fun _ => ⟨rfl, rv1, hstep⟩⟩
+    exact absurd (this.mpr hs) (by simp)
+  · rename_i rv1 g1 hstep
+    have := shootStep_outcome w source scName st rv g true rv1 g1 hstep
+    refine ⟨fun _ => ⟨rv1, g1, hstep, h⟩, fun hn => absurd (this.mp rfl) hn⟩
+
 end Pandora.Proofs.C15
